@@ -28,11 +28,11 @@ const mtOpaque = "application/vnd.verif.opaque"
 
 // Step is one step of an integrity history.
 type Step struct {
-	K     string `json:"k"`  // push | read | range | delete
+	K     string `json:"k"` // push | read | range | delete
 	Path  string `json:"path,omitempty"`
-	R     int    `json:"r"`            // repository index
-	R2    int    `json:"r2,omitempty"` // mount source
-	C     int    `json:"c"`            // content index
+	R     int    `json:"r"`             // repository index
+	R2    int    `json:"r2,omitempty"`  // mount source
+	C     int    `json:"c"`             // content index
 	Bad   int    `json:"bad,omitempty"` // push: 0 truthful, 1 digest of other content, 2 size+1, 3 size-1
 	Tag   int    `json:"tag,omitempty"`
 	Read  string `json:"read,omitempty"` // getBlob | resolveBlob | getManifest | resolveManifest | getTag | resolveTag
@@ -138,7 +138,12 @@ func run(s Script, v *vt.V) {
 						if n > len(rest) {
 							n = len(rest)
 						}
-						if _, perr = w.Write(rest[:n]); perr != nil {
+						buf := append([]byte(nil), rest[:n]...)
+						_, perr = w.Write(buf)
+						for bi := range buf { // io.Writer: Write must not retain p
+							buf[bi] ^= 0xA5
+						}
+						if perr != nil {
 							break
 						}
 						rest = rest[n:]
@@ -197,7 +202,11 @@ func run(s Script, v *vt.V) {
 					tag = tags[(st.Tag-1)%len(tags)]
 				}
 				var d ociregistry.Descriptor
-				d, perr = reg.PushManifest(ctx, repo, tag, data, mtOpaque)
+				buf := append([]byte(nil), data...)
+				d, perr = reg.PushManifest(ctx, repo, tag, buf, mtOpaque)
+				for bi := range buf { // the caller reuses its buffer once the call has returned
+					buf[bi] ^= 0xA5
+				}
 				if perr == nil {
 					if d.Digest != dg || d.Size != int64(len(data)) {
 						fail(i, st, "", "PushManifest returned %v/%d, want %v/%d", d.Digest, d.Size, dg, len(data))
